@@ -159,7 +159,17 @@ func runSolver(ctx context.Context, sp solverSpec, query string) SolveResult {
 	_ = cmd.Run()
 	ms := time.Since(t0).Milliseconds()
 	s := out.String()
-	first := strings.TrimSpace(strings.SplitN(strings.TrimSpace(s), "\n", 2)[0])
+	// the verdict is the first line that is not a solver warning
+	first := ""
+	body := strings.TrimSpace(s)
+	for _, l := range strings.Split(body, "\n") {
+		l = strings.TrimSpace(l)
+		if l == "" || strings.HasPrefix(l, "WARNING:") {
+			continue
+		}
+		first = l
+		break
+	}
 	res := SolveResult{Solver: sp.name, Ms: ms, Output: s}
 	switch {
 	case first == "unsat":
